@@ -479,7 +479,7 @@ fn do_replay(world: &World, path: &str) -> i32 {
         exec::CANARY.store(true, std::sync::atomic::Ordering::Relaxed);
     }
     if v.pointer("/info/source").and_then(|x| x.as_str()) == Some("ubprobe") {
-        exec::LEAN.store(true, std::sync::atomic::Ordering::Relaxed);
+        exec::LEAN.store(v.pointer("/info/lean_level").and_then(|x| x.as_u64()).unwrap_or(2) as u8, std::sync::atomic::Ordering::Relaxed);
     }
     if v.pointer("/info/concurrent").and_then(|x| x.as_bool()) == Some(true) {
         println!("replaying {} with two threads executing the history at the same time", path);
@@ -542,6 +542,8 @@ struct Args {
     miri_on_demand: Option<String>,
     /// alarm-path self-test child: run with a deliberately wrong reference model
     canary: bool,
+    /// ubprobe: 2 = codec calls only, 1 = also byte views and size checks (cross-target runs)
+    lean_level: u8,
 }
 
 fn parse_args() -> Args {
@@ -568,6 +570,7 @@ fn parse_args() -> Args {
         miri_workspace: None,
         miri_on_demand: None,
         canary: false,
+        lean_level: 2,
     };
     let mut it = std::env::args().skip(1);
     a.cmd = it.next().unwrap_or_default();
@@ -601,6 +604,7 @@ fn parse_args() -> Args {
             "--miri-probe" => a.miri_workspace = Some(val()),
             "--miri-on-demand" => a.miri_on_demand = Some(val()),
             "--canary" => a.canary = true,
+            "--lean-level" => a.lean_level = val().parse().unwrap_or(2),
             "--codec-only" => a.codec_only = true,
             "--also" => {
                 let v = val();
@@ -698,7 +702,7 @@ fn main() {
 /// `<replay-dir>/ubprobe-current.json` first, so that if the interpreter aborts the process the file
 /// names the (history, fault) pair it was executing. Works natively too (then it is just a tiny check).
 fn cmd_ubprobe(world: &World, args: &Args) -> i32 {
-    exec::LEAN.store(true, std::sync::atomic::Ordering::Relaxed);
+    exec::LEAN.store(args.lean_level, std::sync::atomic::Ordering::Relaxed);
     let traces = gen::ub_probe_traces(world);
     let _ = std::fs::create_dir_all(&args.replay_dir);
     let cur = format!("{}/ubprobe-current.json", args.replay_dir);
@@ -712,8 +716,8 @@ fn cmd_ubprobe(world: &World, args: &Args) -> i32 {
         let w = match write_phase(&world.table, t, false) {
             Ok(w) => w,
             Err(v) => {
-                let doc = replay_json(world, t, &Fault::None, &v, json!({"variant": args.variant, "source": "ubprobe"}));
-                let p = format!("{}/ubprobe-{}-{}.json", args.replay_dir, t.run, v.check);
+                let doc = replay_json(world, t, &Fault::None, &v, json!({"variant": args.variant, "source": "ubprobe", "lean_level": args.lean_level}));
+                let p = format!("{}/ubprobe-{}-{}-{}.json", args.replay_dir, t.run, v.check, args.variant);
                 let _ = std::fs::write(&p, serde_json::to_string_pretty(&doc).unwrap());
                 println!("violation in ubprobe history {}: check {} :: {}", t.run, v.check, v.detail);
                 println!("VIOLATION property={} replay={}", PROPERTY, p);
@@ -737,7 +741,7 @@ fn cmd_ubprobe(world: &World, args: &Args) -> i32 {
         // the history is persisted once; the fault about to run is announced on stdout (formatting a
         // JSON document per execution costs an interpreter seconds)
         let doc = json!({"property": PROPERTY, "check": "UB", "fault": {"kind": "none"}, "trace": t.to_json(&name),
-            "info": {"variant": args.variant, "source": "ubprobe", "note": "written before execution; if the interpreter aborted, the last `ubprobe-next` line on stdout names the fault it was executing on this history"}});
+            "info": {"variant": args.variant, "source": "ubprobe", "lean_level": args.lean_level, "note": "written before execution; if the interpreter aborted, the last `ubprobe-next` line on stdout names the fault it was executing on this history"}});
         let _ = std::fs::write(&cur, serde_json::to_string(&doc).unwrap());
         for f in &plan {
             println!("ubprobe-next history={} fault={}", t.run, serde_json::to_string(&f.to_json()).unwrap());
@@ -745,8 +749,8 @@ fn cmd_ubprobe(world: &World, args: &Args) -> i32 {
             execs += 1;
             fired += p.stats.fired as u64;
             if let Some(v) = p.violation {
-                let doc = replay_json(world, t, f, &v, json!({"variant": args.variant, "source": "ubprobe"}));
-                let path = format!("{}/ubprobe-{}-{}.json", args.replay_dir, t.run, v.check);
+                let doc = replay_json(world, t, f, &v, json!({"variant": args.variant, "source": "ubprobe", "lean_level": args.lean_level}));
+                let path = format!("{}/ubprobe-{}-{}-{}.json", args.replay_dir, t.run, v.check, args.variant);
                 let _ = std::fs::write(&path, serde_json::to_string_pretty(&doc).unwrap());
                 println!("violation in ubprobe history {}: check {} record {} :: {}", t.run, v.check, v.rec, v.detail);
                 println!("VIOLATION property={} replay={}", PROPERTY, path);
@@ -761,14 +765,14 @@ fn cmd_ubprobe(world: &World, args: &Args) -> i32 {
     let mut concurrent = 0u64;
     for t in traces.iter().filter(|t| t.run % 4 == 0) {
         let doc = json!({"property": PROPERTY, "check": "UB", "fault": {"kind": "none"}, "trace": t.to_json(&name),
-            "info": {"variant": args.variant, "source": "ubprobe", "concurrent": true, "note": "two threads execute this history at the same time"}});
+            "info": {"variant": args.variant, "source": "ubprobe", "concurrent": true, "lean_level": args.lean_level, "note": "two threads execute this history at the same time"}});
         let _ = std::fs::write(&cur, serde_json::to_string(&doc).unwrap());
         println!("ubprobe-next history={} fault={{\"kind\":\"none\"}}", t.run);
         let found = exec_concurrently(world, t, &Fault::None);
         concurrent += 2;
         if let Some(v) = found {
-            let doc = replay_json(world, t, &Fault::None, &v, json!({"variant": args.variant, "source": "ubprobe", "concurrent": true}));
-            let path = format!("{}/ubprobe-{}-{}-concurrent.json", args.replay_dir, t.run, v.check);
+            let doc = replay_json(world, t, &Fault::None, &v, json!({"variant": args.variant, "source": "ubprobe", "concurrent": true, "lean_level": args.lean_level}));
+            let path = format!("{}/ubprobe-{}-{}-{}-concurrent.json", args.replay_dir, t.run, v.check, args.variant);
             let _ = std::fs::write(&path, serde_json::to_string_pretty(&doc).unwrap());
             println!("violation in ubprobe history {} (two threads): check {} record {} :: {}", t.run, v.check, v.rec, v.detail);
             println!("VIOLATION property={} replay={}", PROPERTY, path);
@@ -792,6 +796,58 @@ fn exec_concurrently(world: &World, t: &Trace, f: &Fault) -> Option<Violation> {
         }
         found
     })
+}
+
+/// One run of the `ubprobe` batch under Miri. Returns (evidence entry, violation reported).
+fn miri_probe(args: &Args, ws: &str, label: &str, target: Option<&str>, lean: &str) -> (Value, bool) {
+    let t1 = Instant::now();
+    let mut cargs: Vec<String> = ["+nightly", "miri", "run", "--offline", "-p", "c10sim", "--target-dir", "target-miri"].iter().map(|s| s.to_string()).collect();
+    if let Some(t) = target {
+        cargs.push("--target".into());
+        cargs.push(t.into());
+    }
+    cargs.extend(["--", "ubprobe", "--replay-dir", &args.replay_dir, "--variant", label, "--known", &args.known, "--lean-level", lean].iter().map(|s| s.to_string()));
+    let out = std::process::Command::new("cargo").current_dir(ws).env("MIRIFLAGS", "-Zmiri-disable-isolation").args(&cargs).output();
+    let tgt = target.unwrap_or("host");
+    match out {
+        Err(e) => (json!({"variant": label, "target": tgt, "ran": false, "why": format!("cargo +nightly miri could not be started: {}", e)}), false),
+        Ok(o) => {
+            let so = String::from_utf8_lossy(&o.stdout).to_string();
+            let se = String::from_utf8_lossy(&o.stderr).to_string();
+            let okline = so.lines().find(|l| l.starts_with("UBPROBE-OK")).map(|l| l.to_string());
+            let last_next = so.lines().filter(|l| l.starts_with("ubprobe-next")).last().map(|l| l.to_string());
+            if let (true, Some(l)) = (o.status.success(), &okline) {
+                println!("c10sim: interpreter probe under Miri ({}, target {}): {}", label, tgt, l);
+                (json!({"variant": label, "target": tgt, "ran": true, "interpreter": "miri (cargo +nightly miri run, -Zmiri-disable-isolation)", "lean_level": lean, "result": l, "undefined_behaviour_reports": 0, "wall_s": t1.elapsed().as_secs_f64()}), false)
+            } else if let Some(l) = so.lines().find(|l| l.starts_with("VIOLATION")) {
+                for x in so.lines().filter(|l| l.starts_with("violation in")) {
+                    println!("[variant {}] {}", label, x);
+                }
+                println!("{}", l);
+                (json!({"variant": label, "target": tgt, "ran": true, "result": "functional violation inside the probe", "line": l}), true)
+            } else if se.contains("Undefined Behavior") {
+                // build the replay file from the persisted history and the last announced fault
+                let cur = format!("{}/ubprobe-current.json", args.replay_dir);
+                let mut doc: Value = std::fs::read_to_string(&cur).ok().and_then(|t| serde_json::from_str(&t).ok()).unwrap_or(json!({}));
+                if let Some(f) = last_next.as_ref().and_then(|l| l.split("fault=").nth(1)).and_then(|f| serde_json::from_str::<Value>(f).ok()) {
+                    doc["fault"] = f;
+                }
+                let report: String = se.lines().skip_while(|l| !l.contains("Undefined Behavior")).take(12).collect::<Vec<_>>().join(" | ");
+                doc["check"] = json!("U1");
+                doc["violation"] = json!({"check": "U1", "detail": report});
+                let path = format!("{}/{}-ubprobe-U1-{}.json", args.replay_dir, args.seed, label);
+                let _ = std::fs::write(&path, serde_json::to_string_pretty(&doc).unwrap());
+                println!("[variant {}] violation: check U1 (undefined behaviour while executing {}) :: {}", label, last_next.unwrap_or_default(), report);
+                println!("VIOLATION property={} replay={}", PROPERTY, path);
+                (json!({"variant": label, "target": tgt, "ran": true, "result": "undefined behaviour reported", "report": report, "replay": path}), true)
+            } else {
+                // miri missing / unsupported operation / build failure: not a verdict about the property
+                let why: String = se.lines().rev().take(6).collect::<Vec<_>>().join(" | ");
+                eprintln!("note: interpreter probe {} skipped (exit {:?}): {}", label, o.status.code(), why);
+                (json!({"variant": label, "target": tgt, "ran": false, "why": format!("cargo miri exited with {:?}: {}", o.status.code(), why)}), false)
+            }
+        }
+    }
 }
 
 /// Alarm-path self-test: a child process runs a small batch against a deliberately wrong reference
@@ -1106,59 +1162,29 @@ fn cmd_run(world: &World, args: &Args) -> i32 {
     let variants_json = Value::Array(variants_json);
 
     // interpreter probe: the PRNG-free `ubprobe` batch executed by Miri, which detects undefined
-    // behaviour in the `unsafe` decode paths (derive-generated decode_into, codec's array/Box/Vec code)
+    // behaviour in the `unsafe` decode paths (derive-generated decode_into, codec's array/Box/Vec code).
+    // The thorough tier runs it three times: for the host target (fully lean), and — because Miri can
+    // interpret foreign targets — for a big-endian and a 32-bit target with the byte-view and size oracles
+    // switched on, which is the only way this sandbox can execute the `ne` views and the encoders on a
+    // host that is not little-endian / 64-bit.
     let mut ub_probe = json!({"ran": false, "why": "requested by the thorough tier, or on demand when a native violation does not replay"});
     let probe_ws = args.miri_workspace.clone().or_else(|| if unreproducible { args.miri_on_demand.clone() } else { None });
     if let Some(ws) = &probe_ws {
-        let t1 = Instant::now();
-        let out = std::process::Command::new("cargo")
-            .current_dir(ws)
-            .env("MIRIFLAGS", "-Zmiri-disable-isolation")
-            .args(["+nightly", "miri", "run", "--offline", "-p", "c10sim", "--target-dir", "target-miri", "--", "ubprobe", "--replay-dir", &args.replay_dir, "--variant", "miri", "--known", &args.known])
-            .output();
-        match out {
-            Err(e) => ub_probe = json!({"ran": false, "why": format!("cargo +nightly miri could not be started: {}", e)}),
-            Ok(o) => {
-                let so = String::from_utf8_lossy(&o.stdout).to_string();
-                let se = String::from_utf8_lossy(&o.stderr).to_string();
-                let okline = so.lines().find(|l| l.starts_with("UBPROBE-OK")).map(|l| l.to_string());
-                let last_next = so.lines().filter(|l| l.starts_with("ubprobe-next")).last().map(|l| l.to_string());
-                if let (true, Some(l)) = (o.status.success(), &okline) {
-                    println!("c10sim: interpreter probe under Miri: {}", l);
-                    ub_probe = json!({"ran": true, "interpreter": "miri (cargo +nightly miri run, -Zmiri-disable-isolation)", "result": l, "undefined_behaviour_reports": 0, "wall_s": t1.elapsed().as_secs_f64()});
-                } else if let Some(l) = so.lines().find(|l| l.starts_with("VIOLATION")) {
-                    for x in so.lines().filter(|l| l.starts_with("violation in")) {
-                        println!("[variant miri] {}", x);
-                    }
-                    println!("{}", l);
-                    violations += 1;
-                    exit = 1;
-                    ub_probe = json!({"ran": true, "result": "functional violation inside the probe", "line": l});
-                } else if se.contains("Undefined Behavior") {
-                    // build the replay file from the persisted history and the last announced fault
-                    let cur = format!("{}/ubprobe-current.json", args.replay_dir);
-                    let mut doc: Value = std::fs::read_to_string(&cur).ok().and_then(|t| serde_json::from_str(&t).ok()).unwrap_or(json!({}));
-                    if let Some(f) = last_next.as_ref().and_then(|l| l.split("fault=").nth(1)).and_then(|f| serde_json::from_str::<Value>(f).ok()) {
-                        doc["fault"] = f;
-                    }
-                    let report: String = se.lines().skip_while(|l| !l.contains("Undefined Behavior")).take(12).collect::<Vec<_>>().join(" | ");
-                    doc["check"] = json!("U1");
-                    doc["violation"] = json!({"check": "U1", "detail": report});
-                    let path = format!("{}/{}-ubprobe-U1-miri.json", args.replay_dir, args.seed);
-                    let _ = std::fs::write(&path, serde_json::to_string_pretty(&doc).unwrap());
-                    println!("[variant miri] violation: check U1 (undefined behaviour while executing {}) :: {}", last_next.unwrap_or_default(), report);
-                    println!("VIOLATION property={} replay={}", PROPERTY, path);
-                    violations += 1;
-                    exit = 1;
-                    ub_probe = json!({"ran": true, "result": "undefined behaviour reported", "report": report, "replay": path});
-                } else {
-                    // miri missing / unsupported operation / build failure: not a verdict about the property
-                    let why: String = se.lines().rev().take(6).collect::<Vec<_>>().join(" | ");
-                    eprintln!("note: interpreter probe skipped (exit {:?}): {}", o.status.code(), why);
-                    ub_probe = json!({"ran": false, "why": format!("cargo miri exited with {:?}: {}", o.status.code(), why)});
-                }
+        let mut plans: Vec<(&str, Option<&str>, &str)> = vec![("miri", None, "2")];
+        if args.miri_workspace.is_some() {
+            plans.push(("miri-be", Some("s390x-unknown-linux-gnu"), "1"));
+            plans.push(("miri-32", Some("i686-unknown-linux-gnu"), "1"));
+        }
+        let mut results = Vec::new();
+        for (label, target, lean) in plans {
+            let (res, hit) = miri_probe(args, ws, label, target, lean);
+            results.push(res);
+            if hit {
+                violations += 1;
+                exit = 1;
             }
         }
+        ub_probe = Value::Array(results);
     }
 
     // evidence
